@@ -113,6 +113,7 @@ type trans struct {
 	localAllocs map[*ssa.Alloc]bool
 	heapRefs    map[string]string
 	curCallArgs []ssa.Value
+	stableHeaps map[string]bool
 }
 
 func (tr *trans) errorf(f string, a ...any) {
@@ -213,6 +214,16 @@ func (tr *trans) havocAllExcept(st State, keep map[string]bool) {
 	for _, name := range sortedKeys(tr.known) {
 		if keep[name] {
 			continue
+		}
+		if tr.stableHeaps[name] {
+			continue
+		}
+		if strings.HasPrefix(name, "ghost.") {
+			gn := strings.TrimSuffix(strings.TrimPrefix(name, "ghost."), "$dom")
+			if g, ok := tr.prog.CS.Ghosts[gn]; ok && g.Stable && keep == nil {
+				tr.note("uncontracted callees are assumed to leave the ghost state " + gn + " as they found it (e.g. to release the locks they take)")
+				continue
+			}
 		}
 		if name == "$next" {
 			old := tr.getState(st, name)
@@ -987,6 +998,13 @@ func (tr *trans) run() {
 			env.lets[it.Name] = it.E
 		case "requires", "assume":
 			tr.vc.assume(env.elabBool(it.E))
+		}
+	}
+	if len(tr.fc.Stable) > 0 {
+		fp := tr.footprint(env, tr.fc.Stable)
+		tr.stableHeaps = fp.whole
+		for _, n := range sortedKeys(fp.whole) {
+			tr.note("assumed: no callee of " + tr.key + " modifies " + n)
 		}
 	}
 	tr.axioms()
